@@ -9,6 +9,7 @@ import (
 	"os"
 	"path/filepath"
 	"strings"
+	"syscall"
 	"testing"
 	"testing/synctest"
 
@@ -44,6 +45,10 @@ func (lockEngine) Generate(rng *rand.Rand, prop string, thorough bool) *Plan {
 			rounds = 1 + rng.Intn(5)
 		}
 		for r := 0; r < rounds; r++ {
+			if rng.Intn(6) == 0 {
+				// an Open during which the k-th file open fails (EMFILE); the process then dies
+				ops = append(ops, Op{K: "openfail", Key: 1 + rng.Intn(8)})
+			}
 			ops = append(ops, Op{K: "open"})
 			for w := rng.Intn(3); w > 0; w-- {
 				id++
@@ -66,6 +71,9 @@ func (lockEngine) Generate(rng *rand.Rand, prop string, thorough bool) *Plan {
 
 // sessionFS is the FileSystem one Open call gets: it attributes file-system calls to the session.
 type sessionFS struct {
+	failAt    int // >0: the failAt-th OpenFile call fails with EMFILE
+	nOpen     int
+	injected  bool
 	inner     fs.FileSystem
 	lock      fs.LockFile
 	files     []fs.File
@@ -74,6 +82,11 @@ type sessionFS struct {
 }
 
 func (s *sessionFS) OpenFile(name string, flag int, perm os.FileMode) (fs.File, error) {
+	s.nOpen++
+	if s.failAt > 0 && s.nOpen == s.failAt {
+		s.injected = true
+		return nil, &os.PathError{Op: "open", Path: name, Err: syscall.EMFILE}
+	}
 	if flag&(os.O_CREATE|os.O_TRUNC) != 0 {
 		if _, err := s.inner.Stat(name); err != nil || flag&os.O_TRUNC != 0 {
 			s.mutations = append(s.mutations, "create/truncate "+filepath.Base(name))
@@ -182,9 +195,20 @@ func (l lockEngine) Execute(p *Plan) *RunResult {
 		return hs
 	}
 	// tryOpen: one Open call with all of C13's judgements
-	tryOpen := func(task int) (*pogreb.DB, *sessionFS, *lockSession) {
-		sf := &sessionFS{inner: fs.OS}
+	afterFailedOpen := false // an Open that had taken the lock failed and its process died: recovery next time is allowed
+	tryOpen := func(task int, failAt int) (*pogreb.DB, *sessionFS, *lockSession) {
+		sf := &sessionFS{inner: fs.OS, failAt: failAt}
 		db, err := pogreb.Open(dir, opts(sf))
+		sf.failAt = 0 // the fault is for this Open only
+		if err != nil && sf.injected {
+			// the injected fault made this Open fail; it is not a competing Open and not a session
+			res.Faults["open_failed_by_injected_error"]++
+			if sf.lock != nil {
+				afterFailedOpen = true
+			}
+			sf.die()
+			return nil, nil, nil
+		}
 		if err != nil {
 			res.Probes["open_failed_locked"]++
 			if !strings.Contains(err.Error(), "locked") {
@@ -210,11 +234,12 @@ func (l lockEngine) Execute(p *Plan) *RunResult {
 		switch {
 		case prev != nil && prev.endKind == "died" && !sf.recovered:
 			fail(violf("unclean-shutdown-not-detected", "task %d opened the directory without recovery although the previous session (task %d) died without Close", task, prev.task))
-		case prev != nil && prev.endKind == "clean" && sf.recovered:
+		case prev != nil && prev.endKind == "clean" && sf.recovered && !afterFailedOpen:
 			fail(violf("clean-shutdown-recovered", "task %d ran recovery although the previous session (task %d) completed Close", task, prev.task))
-		case prev == nil && sf.recovered:
+		case prev == nil && sf.recovered && !afterFailedOpen:
 			fail(violf("clean-shutdown-recovered", "task %d ran recovery on a fresh directory", task))
 		}
+		afterFailedOpen = false
 		if sf.recovered {
 			res.Probes["recovery_after_death"]++
 		}
@@ -251,7 +276,14 @@ func (l lockEngine) Execute(p *Plan) *RunResult {
 						switch op.K {
 						case "open":
 							if db == nil {
-								db, sf, ses = tryOpen(ti)
+								db, sf, ses = tryOpen(ti, 0)
+							}
+						case "openfail":
+							if db == nil {
+								if d, f, se := tryOpen(ti, op.Key); d != nil {
+									// the fault did not fire (fewer file opens than k, or the Open lost the competition earlier)
+									db, sf, ses = d, f, se
+								}
 							}
 						case "put":
 							if db != nil {
@@ -297,7 +329,7 @@ func (l lockEngine) Execute(p *Plan) *RunResult {
 			sim.Join(clients...)
 			if v == nil {
 				// the directory at rest: one more Open must see the acknowledged contents
-				if db, sf, ses := tryOpen(-1); db != nil {
+				if db, sf, ses := tryOpen(-1, 0); db != nil {
 					ses.endKind = "clean"
 					if err := db.Close(); err != nil {
 						fail(violf("api-error", "final Close: %v", err))
